@@ -134,8 +134,7 @@ theorem TBH2LP_code (c : Consts) (m : CFFs) (pt : Pt) :
         (codeLP pt.xB pt.Q2 pt.t pt.y pt.eps2 c.Mp2 (pt.K_ * kcos pt.phi) ((m.F1 + m.F2) ^ 2)
             ((m.F1 + m.F2) * (m.F1 + pt.t * m.F2 / (4 * c.Mp2))) / (1 - pt.t / (4 * c.Mp2)) /
           (pt.xB ^ 2 * pt.y ^ 2 * (1 + pt.eps2) ^ 2 * pt.t * pt.P1P2))) := by
-  simp only [BM10ex.TBH2LP, BMK.PreFacBH, BM10ex.cBH0LP, BM10ex.cBH1LP, codeLP]
-  ring
+  bridge_simp [BM10ex.TBH2LP, BMK.PreFacBH, BM10ex.cBH0LP, BM10ex.cBH1LP, codeLP, one_mul]
 
 /-- longitudinal target spin: along +z, i.e. opposite to the virtual-photon momentum (BMK convention) -/
 def SL : V4 := ⟨0, 0, 0, 1⟩
@@ -189,7 +188,7 @@ theorem TBH2LP_eq_ref (c : Consts) (m : CFFs) (pt : Pt) {M r sl pT : ℝ}
     linear_combination P1_add_P2 f pt.Q2 pt.t hQ.ne' hk hk' hq hΔ hq2
   have hkap : pt.K_ * kcos pt.phi = -(pt.y * (1 + pt.eps2) * f.P1 pt.Q2 + Jr pt.Q2 pt.xB pt.t pt.y pt.eps2) / 2 := by
     rw [hP1c, P1code, ← hK2, ← hK]
-    have : Jr pt.Q2 pt.xB pt.t pt.y pt.eps2 = J c pt.Q2 pt.xB pt.t pt.y pt.eps2 := by simp only [Jr, J]
+    have : Jr pt.Q2 pt.xB pt.t pt.y pt.eps2 = J c pt.Q2 pt.xB pt.t pt.y pt.eps2 := (J_eq c _ _ _ _ _).symm
     rw [this]
     have hye : pt.y * (1 + pt.eps2) ≠ 0 := by positivity
     field_simp
